@@ -67,7 +67,16 @@ def features():
     # assignments hidden in functions (template-local and global), in statements, through inline-if
     for tid, stmt in (("clock=literal", "x = 1.5;"), ("double-var=literal", "d = 2.5;"), ("double-local", "double t = 0.5; t = t * 2.0;"),
                       ("in-if", "if (i == 0) { d = 2.5; }"), ("in-loop", "for (k : int[0,1]) { d = d * 2.0; }"),
-                      ("in-nested-block", "{ { d = 2.5; } }"), ("in-while", "while (i < 1) { i++; d = 0.5; }")):
+                      ("in-nested-block", "{ { d = 2.5; } }"), ("in-while", "while (i < 1) { i++; d = 0.5; }"),
+                      # every statement form once more, and code that follows a statement which may return
+                      ("in-else", "if (i == 0) { i = 1; } else { d = 2.5; }"), ("in-do-while", "do { d = 0.5; i++; } while (i < 1);"),
+                      ("in-for", "for (i = 0; i < 2; i++) { d = d + 0.5; }"), ("in-for-step", "for (i = 0; i < 2; i++, d = 0.5) { }"),
+                      ("after-while-that-returns", "while (i > 0) { i--; return; } d = 2.5;"),
+                      ("after-for-that-returns", "for (i = 0; i < 0; i++) { return; } d = 2.5;"),
+                      ("after-iteration-that-returns", "for (k : int[0,1]) { if (i > 5) { return; } } d = 2.5;"),
+                      ("after-if-that-returns", "if (i > 5) { return; } d = 2.5;"), ("after-do-while", "do { i++; } while (i < 1); d = 2.5;"),
+                      ("after-nested-block-with-return-in-branch", "{ if (i > 5) { return; } } d = 2.5;"),
+                      ("in-local-initialiser", "double t = d * 2.0; d = t;"), ("in-block-after-declarations-only-block", "{ int u = 1; } d = 2.5;")):
         if "x =" not in stmt:
             yield ("assign-fp-in-function:" + tid, "global-function", dict(assign="up()"), "void up() { %s }" % stmt, {"symbolic"})
         yield ("assign-fp-in-function:" + tid, "template-local-function", dict(decl="clock x; hybrid clock h; void up() { %s }" % stmt, assign="up()"),
